@@ -118,6 +118,19 @@ def _let(pat, scr):
         pat = pat[:-3] + "($)"          # whether the payload is bound or ignored does not matter for the test
     if pat in ("v1::None", "Option::None"):
         return _not(_let("v1::Some($)", scr))
+    if pat.startswith("(") and pat.endswith(")") and scr[0] == "tup":
+        # `let (p, q) = (a, b)` tests the components: `let p = a && let q = b`
+        parts = [x.strip() for x in _split_top(pat[1:-1], ",")]
+        if len(parts) == len(scr[1]) and len(parts) >= 2:
+            c = None
+            for part, comp in zip(parts, scr[1]):
+                if re.fullmatch(r"[$_]", part):
+                    continue
+                k = _let(part, comp)
+                if k == ("lit", True):
+                    continue
+                c = k if c is None else ("op", "&&", [c, k])
+            return c if c is not None else ("lit", True)
     if pat.startswith("{") and pat.endswith("}"):
         # a plain struct pattern tests its fields: `let S { a: None, b: S2 { c: Some(_), .. }, d } = x` is `x.a is None && x.b.c is Some`
         c = None
@@ -2694,6 +2707,7 @@ class Norm:
         early = []
         effs = []
         let_tries = []
+        kept_in_place = []
         for st in b["stmts"]:
             sk = st.get("k")
             if sk == "SLet" and "init" in st and "els" not in st:
@@ -2725,6 +2739,12 @@ class Norm:
                     if mt[0] == "match" and any(_diverges(bt) for _p, _g, bt in mt[2]):
                         handled = True
                         early.append((("lit", "match"), mt))
+                    elif mt[0] == "if" and _diverges(mt[2]) and _is_unit(mt[3]):
+                        handled = True              # a two-arm match that reads as `if c { return .. }`
+                        early.append((mt[1], mt[2]))
+                    elif mt[0] == "if" and _diverges(mt[3]) and _is_unit(mt[2]):
+                        handled = True
+                        early.append((_not(mt[1]), mt[3]))
                 if not handled and inner.get("k") in ("Call", "MethodCall", "Match", "If", "Loop", "Block") and inner.get("ty") != "!" \
                         and not self._is_mut_local_effect(inner):
                     et = self._t(inner)
@@ -2737,7 +2757,12 @@ class Norm:
                         seen = any(x == base for c, _v in et[1] for x in subterms(c))       # already evaluated by the guard itself
                         et = et[2] if not seen and any(x[0] in ("call", "try", "seq", "for", "mut") for x in subterms(et[2])) else ("lit", "()")
                     if not _is_unit(et) and not _diverges(et):
-                        effs.append(et)
+                        if _has_ret(et) and et[0] in ("if", "match", "seq", "iflet"):
+                            # a statement that may leave the function keeps its place among the guard clauses (it is not moved behind later ones)
+                            early.append((("lit", "match"), et))
+                            kept_in_place.append((len(early) - 1, len(effs)))
+                        else:
+                            effs.append(et)
             elif sk == "SLet" and "init" in st and "els" not in st and _may_diverge(st["init"]):
                 # let x = match y { Some(v) => v, None => return d };   is a guard clause of the block, then x = the value
                 it = self._t(st["init"])
@@ -2753,6 +2778,10 @@ class Norm:
                 else:
                     lc = ("op", "Not", [lc])
                 early.append((lc, self._t({"k": "Block", "b": st["els"], "ty": "!x"})))
+        while kept_in_place and kept_in_place[-1][0] == len(early) - 1:
+            # no guard clause follows it: an ordinary statement of the block, as before
+            pos, epos = kept_in_place.pop()
+            effs.insert(epos, early.pop(pos)[1])
         if "expr" in b:
             tail = self._t(b["expr"])
         else:
